@@ -7,7 +7,7 @@ from astropy.io import fits
 from AegeanTools import fits_tools
 
 
-def mk(cx, cy, cd=False, kind="random", seed=0):
+def mk(cx, cy, cd=False, kind="random", seed=0, cross=False):
     rng = np.random.default_rng(seed)
     if kind == "bilinear":
         r, c = np.mgrid[0:cx, 0:cy]
@@ -21,6 +21,8 @@ def mk(cx, cy, cd=False, kind="random", seed=0):
     h['CTYPE1'], h['CTYPE2'] = 'RA---SIN', 'DEC--SIN'
     if cd:
         h['CD1_1'], h['CD2_2'] = -0.01, 0.02
+        if cross:
+            h['CD1_2'], h['CD2_1'] = 0.00342, -0.00271
     else:
         h['CDELT1'], h['CDELT2'] = -0.01, 0.02
     return fits.HDUList([hdu]), data
@@ -28,7 +30,7 @@ def mk(cx, cy, cd=False, kind="random", seed=0):
 
 def case_failures(cx, cy, f, cd=False, kind="random", seed=0):
     out = []
-    hl, data = mk(cx, cy, cd, kind, seed)
+    hl, data = mk(cx, cy, cd, kind, seed, cross=(cd and seed % 2 == 0))
     h0 = hl[0].header.copy()
     try:
         c = fits_tools.compress(hl, f)
@@ -61,6 +63,9 @@ def case_failures(cx, cy, f, cd=False, kind="random", seed=0):
     if ed.shape != (cx, cy):
         out.append(("expand.shape", "expanded shape %s, expected %s" % (ed.shape, (cx, cy))))
         return out
+    for k in ('CD1_2', 'CD2_1'):
+        if (k in h0) != (k in eh) or (k in h0 and abs(eh[k] - h0[k]) > 1e-9 * max(1, abs(h0[k]))):
+            out.append(("expand.header_inverse.cd_cross_terms", "%s: %r -> %r" % (k, h0.get(k), eh.get(k))))
     for k in ('CRPIX1', 'CRPIX2', 'CDELT1', 'CDELT2', 'CD1_1', 'CD2_2'):
         if (k in h0) != (k in eh) or (k in h0 and abs(eh[k] - h0[k]) > 1e-9 * max(1, abs(h0[k]))):
             out.append(("expand.header_inverse.crpix" if 'CRPIX' in k else "expand.header_inverse.scale_cards",
@@ -151,3 +156,65 @@ def replay_roundtrip(p):
                 break
     return {"fails": bool(bad), "observed": bad, "replay_func": "replay_roundtrip",
             "replay_payload": {"cases": [b["case"] for b in bad]}}
+
+
+def aux_failures(shape=(13, 30), factor=4, nbands=3):
+    """compressed aux file through load_image_band: every band, repeated reads, and a path that is rewritten"""
+    import os
+    import shutil
+    import tempfile
+    out = []
+    d = tempfile.mkdtemp(prefix="c15_")
+    try:
+        hl, data = mk(shape[0], shape[1], kind="bilinear")
+        crpix2 = hl[0].header['CRPIX2']
+        path = os.path.join(d, "aux.fits")
+        fits_tools.compress(hl, factor, path)
+        full = np.array(fits_tools.expand(path)[0].data)
+        for rep in range(2):
+            prev = 0
+            for i in range(nbands):
+                dat, hdr = fits_tools.load_image_band(path, band=(i, nbands))
+                hi = prev + dat.shape[0]
+                if dat.shape[1] != shape[1] or not np.allclose(dat, full[prev:hi], equal_nan=True):
+                    out.append(("band.data_rows.compressed_uses_expanded_data",
+                                "read %d band %d/%d: shape %s, expected rows %d:%d of %s" % (rep, i, nbands, dat.shape, prev, hi, full.shape)))
+                if hdr['NAXIS2'] != dat.shape[0] or abs(hdr['CRPIX2'] - (crpix2 - prev)) > 1e-9:
+                    out.append(("band.header_shift.crpix2", "read %d band %d/%d: NAXIS2=%s CRPIX2=%s, expected %s %s" % (
+                        rep, i, nbands, hdr['NAXIS2'], hdr['CRPIX2'], dat.shape[0], crpix2 - prev)))
+                prev = hi
+            if prev != shape[0]:
+                out.append(("band.last_ends_at_rows", "bands cover %d of %d rows" % (prev, shape[0])))
+        # same path, different image: the loader must see the new file
+        hl2, _ = mk(shape[0] + 5, shape[1] + 2, kind="random", seed=3)
+        fits_tools.compress(hl2, factor, path)
+        dat, hdr = fits_tools.load_image_band(path)
+        if dat.shape != (shape[0] + 5, shape[1] + 2):
+            out.append(("band.data_rows.compressed_uses_expanded_data",
+                        "after rewriting the file the loader returned shape %s, expected %s" % (dat.shape, (shape[0] + 5, shape[1] + 2))))
+    finally:
+        shutil.rmtree(d, ignore_errors=True)
+    return out
+
+
+def crosscheck_aux(p):
+    failures, seen, evals = [], set(), 0
+    for shape, f, nb in (((13, 30), 4, 3), ((20, 9), 3, 2), ((7, 7), 8, 4)):
+        evals += 1
+        for lab, what in aux_failures(shape, f, nb):
+            if lab not in seen:
+                seen.add(lab)
+                failures.append({"label": lab, "input": {"shape": shape, "factor": f, "bands": nb}, "what": what,
+                                 "replay_func": "replay_aux", "replay_payload": {"cases": [[list(shape), f, nb]]}})
+    return {"evaluations": evals, "failures": failures,
+            "rule": "compressed aux files read through load_image_band: all bands, twice, and after the path is rewritten"}
+
+
+def replay_aux(p):
+    cases = p.get("cases") or [[[13, 30], 4, 3], [[20, 9], 3, 2]]
+    bad = []
+    for shape, f, nb in cases:
+        fl = aux_failures(tuple(shape), f, nb)
+        if fl:
+            bad.append({"case": [shape, f, nb], "what": fl[:3]})
+    return {"fails": bool(bad), "observed": bad, "replay_func": "replay_aux", "replay_payload": {"cases": [b["case"] for b in bad]}}
